@@ -2,6 +2,7 @@ import PilotaModel.TGen.Keep
 import PilotaModel.Lemmas.SkipBin
 import PilotaModel.Props.C01
 import PilotaModel.Lemmas.TolerantK
+import PilotaModel.Lemmas.KeepRT
 /-
   C13 — retained unknown fields survive re-encoding unchanged.
 
@@ -13,9 +14,14 @@ import PilotaModel.Lemmas.TolerantK
   induction over the five mutually recursive retention decoders), and whenever the field loop of a struct succeeds,
   what it retained is every undeclared field of the wire struct, each as the very value it had on the wire, in wire order
   (`keep_retains_every_unknown_field`) — so the struct's re-encoding `known fields ++ retained` carries each of them byte
-  for byte (`Binary.enc` of the same value), at every nesting level the reader knows.  The writer-side half (a reader
-  with the full schema maps that re-encoding back to the original value) is not proved as one theorem; it is C08's
-  `tolerant_binary` applied to the re-encoding, and is checked by T1 on every run.  The steps: the retained chunk of an unknown field is EXACTLY the bytes of that field's value for
+  for byte (`Binary.enc` of the same value), at every nesting level the reader knows.  The writer-side half is
+  `keep_roundtrip` (bytes) / `keep_roundtrip_value` (values): for EVERY document `dw` with distinct field ids per struct,
+  EVERY reader document obtained from it by removing struct fields (`restrict dw keep`, any `keep`), EVERY typed value `w`
+  of a declared type (`hasTy`, TGen/Typed.lean: a value as the emitted encoder of `dw` writes it; `typed_is_canon`
+  shows it is C02's `Canon`), at every nesting level, inside containers (sets and maps included) and unions: whenever the
+  retaining reader accepts the encoding of `w` and returns `w'`, the full reader decodes the re-encoding of `w'` to exactly
+  `w` (Lemmas/KeepRT.lean: `keep_back_all`, induction on the nesting budget; the struct case shows that `known ++ retained`
+  is a rearrangement of the original fields each of which reads back as the field it stands for).  The steps: the retained chunk of an unknown field is EXACTLY the bytes of that field's value for
   every well-typed value within the skipper's depth budget (`retained_chunk_exact`); the field loop
   appends it to the retained list in wire order and leaves the known fields alone
   (`unknown_field_retained`); a struct re-encodes as its known fields followed by the retained
@@ -125,6 +131,68 @@ theorem keep_retains_every_unknown_field (e : Endian) (dp : Option Nat) (d : Doc
       | err k => simp [hpf] at hp
       | panic m => simp [hpf] at hp
       | fuel => simp [hpf] at hp
+
+/-- a typed value (TGen/Typed.lean `hasTy`) is a value of the emitted type in the sense of `Props/C02.Canon`: the reader's
+own projection maps it to itself -/
+theorem typed_is_canon (d : Doc) (dp : Option Nat) (hd : d.fieldsOk) (f : Nat) (ty : STy) (w : TVal) (ht : hasTy d f ty w = true) :
+    ∃ G, projTy d dp G ty w = some (.ok w) := canon_of_hasTy d dp hd f ty w ht
+
+/-- **Round trip through a reader that lacks fields, value level.**  `dw` is the writer's (full) document, `restrict dw keep`
+the reader's; `w` a typed value of `ty`; `w'` what the retaining reader makes of it.  The full reader maps `w'` back to `w`,
+for every sufficiently large recursion budget (the emitted code has none). -/
+theorem keep_roundtrip_value (dw : Doc) (keep : String → Field → Bool) (dpr dpw : Option Nat) (hd : dw.fieldsOk)
+    (f : Nat) (ty : STy) (w w' : TVal) (fK : Nat) (ht : hasTy dw f ty w = true)
+    (hk : projTyK (restrict dw keep) dpr fK ty w = some (.ok w')) :
+    w'.ttype = w.ttype ∧ ∃ G, ∀ g, G ≤ g → projTy dw dpw g ty w' = some (.ok w) := by
+  obtain ⟨h1, G, hG⟩ := keep_back_all dw keep dpr dpw hd f ty w ht fK w' hk
+  exact ⟨h1, G, fun g hg => projTy_mono dw dpw G g hg ty w' w hG⟩
+
+/-- **Retained unknown fields survive re-encoding: the full reader recovers the original value** (bytes level; `er` /
+`dpr`: the retaining reader's protocol - binary, LE or unchecked -, `ew` / `dpw`: the full reader's).  The retaining
+reader, at the budget of its `decode` entry point, returns `w'` and leaves the trailing input; the full reader decodes
+the re-encoding `Binary.enc ew w'` (known fields, then the retained chunks: `struct_known_then_retained`) to `w`, leaving
+its trailing input.  `hw'`: the reader's value is a Rust value (integers within their types; not derived here). -/
+theorem keep_roundtrip (er ew : Endian) (dpr dpw : Option Nat) (hedr : EndianOk er dpr) (hedw : EndianOk ew dpw)
+    (dw : Doc) (keep : String → Field → Bool) (hd : dw.fieldsOk) (n : String) (f : Nat) (w w' : TVal)
+    (ht : hasTy dw f (.ref n) w = true) (hw : w.wt = true) (hw' : w'.wt = true) (rest rest' : Bytes)
+    (hk : projTyK (restrict dw keep) dpr (3 * (Binary.enc er w ++ rest).length + 8) (.ref n) w = some (.ok w')) :
+    decodeK er dpr (restrict dw keep) n (Binary.enc er w ++ rest) = .ok (w', rest) ∧
+    ∃ G, ∀ g, G ≤ g → decTy (binRd ew dpw) dw g (.ref n) (Binary.enc ew w' ++ rest') = .ok (w, rest') := by
+  constructor
+  · have := keep_decode_is_projection er dpr (restrict dw keep) n w rest (.ok w') hedr hw hk
+    simpa [withRest, mapOut] using this
+  · obtain ⟨_, G, hG⟩ := keep_roundtrip_value dw keep dpr dpw hd f (.ref n) w w' _ ht hk
+    refine ⟨G, fun g hg => ?_⟩
+    have := (corr_all ew dpw dw hedw g).1 (.ref n) w' rest' (.ok w) hw' (hG g hg)
+    simpa [withRest, mapOut] using this
+
+/-! non-vacuity of `keep_roundtrip`: the writer's document has a recursive struct with a default, a list of itself and a
+map to a second struct; the reader lacks fields 2 and 4 of `S` and field 1 of `T`; what it returns differs from the
+original (retained fields moved behind the known ones) and is read back as the original -/
+def wDoc : Doc := [("S", .struct [{ id := 1, ty := .i32, required := true }, { id := 2, ty := .list (.ref "S"), required := false },
+    { id := 3, ty := .string, required := false, dflt := some (.bin [104]) }, { id := 4, ty := .map .i32 (.ref "T"), required := false }]),
+  ("T", .struct [{ id := 1, ty := .bool, required := false }, { id := 7, ty := .set .i16, required := false }])]
+def wKeep : String → Field → Bool := fun n fl => !((n == "S" && (fl.id == 2 || fl.id == 4)) || (n == "T" && fl.id == 1))
+def wT : TVal := .struct (.cons 1 (.bool true) (.cons 7 (.set .i16 (.cons (.i16 3) (.cons (.i16 4) .nil))) .nil))
+def wInner : TVal := .struct (.cons 1 (.i32 6) (.cons 3 (.bin [105]) .nil))
+def wOrig : TVal := .struct (.cons 1 (.i32 5) (.cons 2 (.list .struct (.cons wInner .nil)) (.cons 3 (.bin [104])
+  (.cons 4 (.map .i32 .struct (.cons (.i32 9) wT .nil)) .nil))))
+def wBack : TVal := .struct (.cons 1 (.i32 5) (.cons 3 (.bin [104]) (.cons 2 (.list .struct (.cons wInner .nil))
+  (.cons 4 (.map .i32 .struct (.cons (.i32 9) wT .nil)) .nil))))
+example : hasTy wDoc 8 (.ref "S") wOrig = true ∧ wOrig.wt = true ∧ wBack.wt = true := by decide +kernel
+example : projTyK (restrict wDoc wKeep) (some 64) 12 (.ref "S") wOrig = some (.ok wBack) ∧ wBack ≠ wOrig := by decide
+example : projTy wDoc (some 64) 20 (.ref "S") wBack = some (.ok wOrig) := by decide +kernel
+example : wDoc.fieldsOk := by
+  intro n fs h
+  by_cases hS : n = "S"
+  · subst hS; simp [wDoc, Doc.find] at h; subst h; decide
+  by_cases hT : n = "T"
+  · subst hT; simp [wDoc, Doc.find] at h; subst h; decide
+  · exfalso
+    simp only [wDoc, Doc.find, List.find?] at h
+    have h1 : ("S" == n) = false := by simpa using fun h => hS h.symm
+    have h2 : ("T" == n) = false := by simpa using fun h => hT h.symm
+    simp [h1, h2] at h
 
 /-! non-vacuity of the two theorems above: a reader that knows field 1 only, a writer that also sent 2 and 9 -/
 def rdDoc : Doc := [("S", .struct [{ id := 1, ty := .i32, required := true }])]
